@@ -1,10 +1,10 @@
 SPECIFICATION MCSpec
 CONSTANTS
-  Actors = {"a1", "a2"}
-  Victims = {}
-  Prog <- Pf1
-  InitPoison = TRUE
-  Fix1 = FALSE
+  Actors = {"a1", "a2", "a3"}
+  Victims = {"a2"}
+  Prog <- Pc3
+  InitPoison = FALSE
+  Fix1 = TRUE
   Fix2 = TRUE
 INVARIANTS RWExclusion NothingBad PopNeverEmpty GuardsBalance
 VIEW View
